@@ -388,7 +388,12 @@ class CRDTStore(Entity):
                 # Create from remote state
                 remote_crdt = self._reconstruct_crdt(remote_dict)
                 if remote_crdt is not None:
-                    self._crdts[key] = remote_crdt
+                    # The local replica must carry *this* node's identity:
+                    # from_dict() restores the sender's node_id, and adopting
+                    # it would record our own updates in the sender's slot.
+                    local_crdt = type(remote_crdt)(self.name)
+                    local_crdt.merge(remote_crdt)
+                    self._crdts[key] = local_crdt
                     self._keys_merged += 1
 
     def _reconstruct_crdt(self, data: dict) -> CRDT | None:
